@@ -2,7 +2,6 @@ package main
 
 import (
 	"fmt"
-	"sort"
 	"strings"
 
 	"golang.org/x/tools/go/ssa"
@@ -75,92 +74,7 @@ func runC04(c *Ctx) {
 // c04VerifiedFields: who writes scionPacketProcessor.hopField / infoField.
 func c04VerifiedFields(c *Ctx) {
 	rule := "X1-verified-fields"
-	rp := c.Prog.Pkgs[modPath+"/router"]
-	if rp == nil {
-		c.Fail(rule, "package router", 0, "package not loaded")
-		return
-	}
-	allowed := map[string][]string{
-		"hopField": {"(*pkg/slayers/path/scion.Raw).GetCurrentHopField(recv.path)#0", "zero:pkg/slayers/path.HopField",
-			"local:complit"},
-		"infoField": {"(*pkg/slayers/path/scion.Raw).GetCurrentInfoField(recv.path)#0", "zero:pkg/slayers/path.InfoField",
-			"local:complit"},
-	}
-	writers := map[string][]string{}
-	loads := 0
-	var fns []*ssa.Function
-	for fn := range c.Prog.AllFuncs() {
-		if fn.Pkg != nil && fn.Pkg.Pkg == rp.Types && len(fn.Blocks) > 0 {
-			fns = append(fns, fn)
-		}
-	}
-	sort.Slice(fns, func(i, j int) bool { return FuncName(fns[i]) < FuncName(fns[j]) })
-	okAll := true
-	for _, fn := range fns {
-		s := NewSymer()
-		for _, b := range fn.Blocks {
-			for _, in := range b.Instrs {
-				switch x := in.(type) {
-				case *ssa.Store:
-					fa, field := procField(x.Addr)
-					if fa == nil {
-						continue
-					}
-					val := s.Sym(x.Val)
-					sub := accessPath(x.Addr)
-					construct := FuncName(fn) + ":store:" + sub
-					if sub != "."+field {
-						okAll = false
-						c.Fail(rule, construct, x.Pos(), "a member of the verified "+field+" is overwritten in place with "+val)
-						continue
-					}
-					ok := false
-					for _, p := range allowed[field] {
-						if wild(p, val) {
-							ok = true
-						}
-					}
-					if val == "local:complit" && !zeroLit(x.Val) {
-						ok = false
-					}
-					if !ok {
-						okAll = false
-						c.Fail(rule, construct, x.Pos(), fmt.Sprintf("%s is set to %s; allowed: the packet's current field (%s) or the zero value",
-							field, val, allowed[field][0]))
-						continue
-					}
-					if strings.Contains(val, "GetCurrent") {
-						loads++
-					}
-					writers[field] = append(writers[field], FuncName(fn))
-				case ssa.CallInstruction:
-					// methods applied to the address of a verified field
-					for i, a := range x.Common().Args {
-						fa, field := procField(a)
-						if fa == nil || a != ssa.Value(fa) {
-							continue
-						}
-						n := calleeName(x.Common())
-						ok := i == 0 && n == "(*pkg/slayers/path.InfoField).UpdateSegID" &&
-							wild("*.hopField.Mac", s.Sym(x.Common().Args[1]))
-						if !ok {
-							okAll = false
-							c.Fail(rule, FuncName(fn)+":call:"+n, x.Pos(), "the address of the verified "+field+
-								" is handed to "+n+"; only UpdateSegID(hopField.Mac) may update it in place")
-						}
-					}
-				}
-			}
-		}
-	}
-	for _, f := range []string{"hopField", "infoField"} {
-		sort.Strings(writers[f])
-	}
-	if okAll {
-		c.OK(rule, "router:writers-of-verified-fields", 0, fmt.Sprintf("hopField written by %v, infoField written by %v",
-			uniq(writers["hopField"]), uniq(writers["infoField"])))
-	}
-	c.Min("router:loads-of-current-hop-and-info-field", loads, 4)
+	checkFieldEffects(c, rule, procFieldEffects(c, NewByteWriters(c)))
 	// after the cross-over the processor works on the new segment's fields
 	if v := c.View(procT + ".doXover"); v != nil {
 		e := NewE1(c, v.Fn)
@@ -184,35 +98,7 @@ func c04VerifiedFields(c *Ctx) {
 	}
 }
 
-func uniq(l []string) []string {
-	var out []string
-	for i, s := range l {
-		if i == 0 || l[i-1] != s {
-			out = append(out, s)
-		}
-	}
-	return out
-}
 
-// procField reports whether addr is (an address inside) the hopField or
-// infoField member of a scionPacketProcessor.
-func procField(v ssa.Value) (*ssa.FieldAddr, string) {
-	for {
-		fa, ok := v.(*ssa.FieldAddr)
-		if !ok {
-			return nil, ""
-		}
-		if typeShort(fa.X.Type()) == "*router.scionPacketProcessor" {
-			n := fieldName(fa.X.Type(), fa.Field)
-			if n == "hopField" || n == "infoField" {
-				// return the outermost address that was asked about
-				return fa, n
-			}
-			return nil, ""
-		}
-		v = fa.X
-	}
-}
 
 // zeroLit: v loads a composite literal that has no field stores.
 func zeroLit(v ssa.Value) bool {
